@@ -266,6 +266,9 @@ pub fn run(prop: PathProp, tier: Tier, seed: u64) -> i32 {
     if prop == PathProp::C01 {
         c01_histories(&ctx, tier, seed);
         ctx.require("history_paths_after_checker_change");
+        c01_twins(&ctx, tier, seed);
+        ctx.require("twin_paths[zero-weight-component]");
+        ctx.require("twin_paths[antipodal-quaternion]");
     }
     for p in crate::world::ALL_PLANNERS {
         ctx.require(&format!("paths[{}]", p.name()));
@@ -276,7 +279,7 @@ pub fn run(prop: PathProp, tier: Tier, seed: u64) -> i32 {
     let (rule, assumptions): (&str, Vec<&str>) = match prop {
         PathProp::C01 => {
             ctx.require("invalid_start_cases");
-            ("cases = planner runs (4 planners x 6 space families, generated worlds incl. start marginally/deeply inside an obstacle and goal regions overlapping or covered by obstacles, planner-RNG and scripted sample sequences, virtual-time iteration budgets); every state of every returned path is re-evaluated with the pure validity function; distinct+non-trivial = distinct returned paths (bit pattern) with >= 3 states", vec!["the validity function is pure and deterministic (built from slab / shell primitives)", "an invalid start must yield InvalidStartState from an initialised planner (PRM: non-empty roadmap)"])
+            ("cases = planner runs (4 planners x 6 space families, generated worlds incl. start marginally/deeply inside an obstacle and goal regions overlapping or covered by obstacles, planner-RNG and scripted sample sequences, virtual-time iteration budgets; plus re-setup histories with a changed checker, and degenerate-metric cases in which invalid states at distance exactly 0 from the start - a different value of a zero-weight component, the antipodal quaternion - are offered as goal / uniform samples); every state of every returned path is re-evaluated with the pure validity function; distinct+non-trivial = distinct returned paths (bit pattern) with >= 3 states", vec!["the validity function is pure and deterministic (built from slab / shell primitives)", "an invalid start must yield InvalidStartState from an initialised planner (PRM: non-empty roadmap)"])
         }
         PathProp::C02 => ("cases = planner runs as for C01 on feasible-looking worlds; first state compared bit for bit with the installed start, goal predicate re-evaluated on the last state; distinct+non-trivial = distinct returned paths with >= 3 states", vec!["histories with re-setup / replaced problems are exercised by the C08 workload, which applies the same endpoint oracle"]),
         PathProp::C03 => {
@@ -411,6 +414,153 @@ fn c01_histories(ctx: &Ctx, tier: Tier, seed: u64) {
                                 let mut v = h.to_json();
                                 v["property"] = json!("C01");
                                 ctx.violate(&format!("{sig}:{}:after-checker-change", h.params.kind.name()), format!("{det} [history: {}]", h.describe()), v);
+                            }
+                        }
+                    }
+                }
+            });
+            i += shards;
+        }
+        ctx.merge(b);
+    });
+}
+
+/// C01 where the metric is degenerate: states at distance exactly 0 from the start (they
+/// differ only in a zero-weight component, or are the antipodal quaternion -q) that the validity
+/// checker rejects are offered as goal samples; the goal accepts them (a window on the
+/// coordinate that tells the twins apart excludes the start itself). A motion of length 0 to
+/// such a twin still ends in an invalid state, so it must never appear on a returned path.
+/// Valid twins / valid neighbours are offered as well, so that paths do come back.
+fn c01_twins(ctx: &Ctx, tier: Tier, seed: u64) {
+    use super::hist::{run_history, History, Op};
+    use crate::spec::{Comp, Spec, Wrap, CK};
+    use crate::world::{gen_params, GoalMode, GoalSpec, Prim, Problem, World, ALL_PLANNERS};
+    let n = tier.pick(1_200, 60_000);
+    let shards = 64;
+    par_shards(shards, crate::util::n_threads(), |sh| {
+        let mut b = Batch::default();
+        let mut i = sh;
+        while i < n {
+            let mut r = Sm::derive(seed, &[111, i as u64]);
+            let planner = ALL_PLANNERS[i % 4];
+            let antipodal = (i / 4) % 3 == 2;
+            let (spec, start, goal, world, label) = if antipodal {
+                let wrap = *r.pick(&[Wrap::So3, Wrap::Se3, Wrap::Compound]);
+                let so3 = Comp { kind: CK::So3 { bounds: None }, weight: *r.pick(&[0.5, 1.0, 2.0]), frac: None };
+                let tr = |n: usize| Comp { kind: CK::R { n, bounds: Some(vec![(-1.0, 1.0); n]) }, weight: 1.0, frac: None };
+                let (comps, qoff) = match wrap {
+                    Wrap::So3 => (vec![Comp { weight: 1.0, ..so3.clone() }], 0),
+                    Wrap::Se3 => (vec![tr(3), so3.clone()], 3),
+                    _ => {
+                        if r.bool(0.5) {
+                            (vec![so3.clone(), tr(1)], 0)
+                        } else {
+                            (vec![tr(2), so3.clone()], 2)
+                        }
+                    }
+                };
+                let spec = Spec { wrap, comps };
+                // quaternions whose self-product is exactly 1, so d(q, -q) = 0 exactly
+                let q: [f64; 4] = *r.pick(&[[0.0, 0.0, 0.0, 1.0], [0.5, 0.5, 0.5, 0.5], [0.5, -0.5, -0.5, 0.5], [0.0, 0.0, 1.0, 0.0], [-0.5, 0.5, -0.5, -0.5]]);
+                let mut start = crate::world::rand_state(&mut r, &spec);
+                start[qoff..qoff + 4].copy_from_slice(&q);
+                let mut twin = start.clone();
+                for k in 0..4 {
+                    twin[qoff + k] = -q[k];
+                }
+                // the coordinate that tells q from -q: the first non-zero one
+                let k = (0..4).find(|k| q[*k] != 0.0).unwrap();
+                let tv = -q[k];
+                let (wlo, whi) = if tv < 0.0 { (-1.0, tv + 0.3) } else { (tv - 0.3, 1.0) };
+                let slab = Prim::Slab { idx: qoff + k, lo: tv - 0.02, hi: tv + 0.02, gaps: vec![] };
+                // goal samples: the invalid twin first, then rotations near the twin (valid unless
+                // they fall into the thin slab)
+                let mut list = vec![twin.clone(), twin.clone()];
+                for _ in 0..6 {
+                    let mut g = twin.clone();
+                    let mut nrm = 0.0;
+                    for j in 0..4 {
+                        g[qoff + j] += r.range(-0.12, 0.12);
+                        nrm += g[qoff + j] * g[qoff + j];
+                    }
+                    for j in 0..4 {
+                        g[qoff + j] /= nrm.sqrt();
+                    }
+                    list.push(g);
+                }
+                let goal = GoalSpec { centre: twin, radius: 0.6 * spec.comps.iter().map(|c| c.weight).fold(0.0, f64::max), mode: GoalMode::List(list), fail_at: None, window: Some((qoff + k, wlo, whi)) };
+                (spec, start, goal, World { prims: vec![slab] }, "antipodal-quaternion")
+            } else {
+                let base = match r.below(3) {
+                    0 => CK::R { n: 1 + r.below(2), bounds: None },
+                    1 => CK::So2 { bounds: None },
+                    _ => CK::R { n: 2, bounds: None },
+                };
+                let base = match base {
+                    CK::R { n, .. } => CK::R { n, bounds: Some(vec![(-2.0, 3.0); n]) },
+                    o => o,
+                };
+                let zero = if r.bool(0.5) { CK::R { n: 1, bounds: Some(vec![(-2.0, 3.0)]) } } else { CK::So2 { bounds: None } };
+                let zc = Comp { kind: zero, weight: 0.0, frac: None };
+                let bc = Comp { kind: base, weight: *r.pick(&[0.5, 1.0, 3.0]), frac: None };
+                let zero_first = r.bool(0.5);
+                let comps = if zero_first { vec![zc, bc] } else { vec![bc, zc] };
+                let spec = Spec { wrap: Wrap::Compound, comps };
+                let zi = if zero_first { 0 } else { spec.offsets()[1] };
+                let mut start = crate::world::rand_state(&mut r, &spec);
+                start[zi] = r.range(-1.8, 0.0);
+                // window [0.5, 2.5] on the zero-weight coordinate, obstacle slab inside it
+                let (slo, shi) = (r.range(0.8, 1.2), r.range(1.8, 2.2));
+                let slab = Prim::Slab { idx: zi, lo: slo, hi: shi, gaps: vec![] };
+                let twin_at = |x: f64| {
+                    let mut t = start.clone();
+                    t[zi] = x;
+                    t
+                };
+                let mut list = vec![twin_at(r.range(slo, shi)), twin_at(r.range(slo, shi)), twin_at(slo), twin_at(shi)];
+                for _ in 0..3 {
+                    list.push(twin_at(if r.bool(0.5) { r.range(0.5, slo - 0.01) } else { r.range(shi + 0.01, 2.5) }));
+                    list.push(twin_at(r.range(slo, shi)));
+                }
+                let goal = GoalSpec { centre: twin_at(1.5), radius: *r.pick(&[0.0, 1e-9, 0.05]), mode: GoalMode::List(list), fail_at: None, window: Some((zi, 0.5, 2.5)) };
+                (spec, start, goal, World { prims: vec![slab] }, "zero-weight-component")
+            };
+            let problem = Problem { spec: spec.clone(), world, start, goal, infeasible: None, tags: vec![format!("twin:{label}")] };
+            let mut params = gen_params(&mut r, &spec, planner, false);
+            params.goal_bias = *r.pick(&[0.3, 0.5, 0.9]);
+            let ops = if planner == PKind::Prm { vec![Op::Setup(0), Op::Construct, Op::Solve(10)] } else { vec![Op::Setup(0), Op::Solve(12 + r.below(30) as u64)] };
+            // now and then the twins also come out of the uniform sampler
+            let script = if r.bool(0.3) {
+                let GoalMode::List(l) = &problem.goal.mode else { unreachable!() };
+                let mut sc: Vec<Vec<f64>> = l.clone();
+                for _ in 0..6 {
+                    sc.push(crate::world::rand_state(&mut r, &spec));
+                }
+                for j in (1..sc.len()).rev() {
+                    let k = r.below(j + 1);
+                    sc.swap(j, k);
+                }
+                Some(sc)
+            } else {
+                None
+            };
+            let h = History { problems: vec![problem], params, prm_samples: 10 + r.below(20) as u64, ops, uniform_fail_at: None, starts_override: None, script, prm_build_override: None };
+            b.evaluations += 1;
+            with_kit!(spec, K, kit => {
+                if let Ok((_, recs)) = run_history::<K>(&kit, &h, false, 3_000_000) {
+                    if let Ok(ev) = WorldEval::<K>::new(&kit, &h.problems[0].world) {
+                        b.count(&format!("twin_cases[{label}]"), 1);
+                        for c in &recs {
+                            if let Res::Path(p) = &c.res {
+                                b.count(&format!("twin_paths[{label}]"), 1);
+                                if p.len() >= 2 {
+                                    b.distinct.insert(hash_path(p));
+                                }
+                                for (sig, det) in path_validity(&kit, &ev, p) {
+                                    let mut v = h.to_json();
+                                    v["property"] = json!("C01");
+                                    ctx.violate(&format!("{sig}:{}:zero-distance-twin", h.params.kind.name()), format!("{det} [{label}: the state is at distance 0 from the start but invalid]"), v);
+                                }
                             }
                         }
                     }
